@@ -5,6 +5,13 @@ spec:      spec/Deb822Reader.tla       line-level model of the reader (SkipUsele
                                        code's loops), of dump() (Dump) and of clearsign armor (Armor);
                                        raw pre-pass of the Dsc/Changes classes (GpgMvParse)
            spec/TraceDeb822Reader.tla  trace validation re-using the automaton (StepF / Finish)
+           spec/Deb822ReaderCalls.tla  independence of calls: heap of paragraph objects handed to the
+                                       caller, generators in progress; ParseOneCall / IterOpen /
+                                       IterNext / Mutate (the CALLER ruins one of his objects);
+                                       ReturnedFresh, FreshIdentity, NoSpontaneousChange; negative
+                                       controls SharedResults (memo keyed by the input returns the old
+                                       object) and SharedIterObject (a generator re-fills the object
+                                       it yielded before)
 model checking:
            lts (closed, VIEW without history, both values of whitespace-separates-paragraphs):
                Totality and exclusiveness of the branch guards, BranchAgrees, EofRule (EOFError <=>
@@ -33,9 +40,20 @@ binding:   (a) every CASE line of TLC (document P, Dump(P), Parse(Dump(P))) is c
                separator lines, optional armor) are fed to the real reader line-prefix by line-prefix
                in one of the six forms; TLC (TraceDeb822Reader) replays the automaton
                over the line classes and must explain every observation.
+           (c) independence of calls (the statement holds whatever was parsed before): the closed LTS of
+               Deb822ReaderCalls (two documents, one with two paragraphs of identical names) is
+               replayed -- scripted and random call sequences, a random input form per call -- and
+               after every call every object handed out so far must show the specification's content;
+               in the CASE replay every document is parsed three times (same form twice, then another
+               form) with the caller poisoning / deleting / adding / re-ordering fields of every
+               earlier result in between, mutating the first paragraph must leave the following ones
+               alone, two generators (this document / the previous case's document) are advanced
+               alternately, and the objects of the previous case (and of the previous recorded
+               document) are kept alive and re-verified after the current one has been handled.
 verdict observables: list of (name, value) per paragraph == TLC's parse (first line trimmed,
            continuation lines verbatim) in every form; "\\n".join(p.dump()) of the re-parsed paragraphs
-           == dump of the expected paragraphs; no exception; every prefix observation explained by
+           == dump of the expected paragraphs; no exception; a call never returns an object it returned
+           before; objects not touched by the caller never change; every prefix observation explained by
            the automaton (trace validation).  Corrupted control traces are hand-written (document,
            wrong observation) pairs, independent of the code under test.
 unspecified / diagnostic (executed, recorded as spec_drift, never a violation): whitespace-only
@@ -59,9 +77,9 @@ import core
 from lts import LTS, skey
 
 MANIFEST = dict(
-    technique="TLA+ spec Deb822Reader (line-class automaton of _skip_useless_lines + split_gpg_and_payload + _internal_parser + iter_paragraphs, inverse operator Dump, clearsign Armor) model-checked by TLC (closed automaton; all bounded documents); every TLC case replayed as real dump()+re-parse in six input forms x comments x armor; prefix-closed executions of the real reader validated by TLC (TraceDeb822Reader)",
+    technique="TLA+ specs Deb822Reader + Deb822ReaderCalls (line-class automaton of _skip_useless_lines + split_gpg_and_payload + _internal_parser + iter_paragraphs, inverse operator Dump, clearsign Armor) model-checked by TLC (closed automaton; all bounded documents); every TLC case replayed as real dump()+re-parse in six input forms x comments x armor; prefix-closed executions of the real reader validated by TLC (TraceDeb822Reader)",
     text="The reader is specified as one automaton over eleven line classes with one named branch per branch of the code's loops. TLC checks on the closed automaton that the branch guards are total and exclusive and that EOFError coincides with an empty paragraph, and on every document of up to 3 paragraphs x 3 fields (at most 3 fields in all in the quick tier, 4-5 in the thorough tier, plus all 3x3 documents over two value shapes) x values with empty/non-empty first line and 0-2 continuation lines that Parse(Dump(P)) = P, also with a comment line at any position or before every line, with leading/trailing/multiple separator lines, and (single paragraphs) inside clearsign armor of several shapes. Each enumerated document carries TLC's expected parse; it is concretized (odd but Policy-valid names, values starting with ':' '#' '-', padded first lines, colons / PGP look-alikes / trailing blanks in continuation lines, UTF-8 whose bytes contain 0x85/0xa0), built as Deb822 objects, dumped and read back through iter_paragraphs / Deb822 / Dsc / Changes in six input forms. In the other direction random documents of up to 8 paragraphs are parsed prefix by prefix by the real code and TLC must explain every intermediate result with the automaton.",
-    note="Small-scope for the exhaustive part; payload text is sampled. Whitespace-only lines, junk lines, stray PGP lines and the non-default strictness flag are modelled and replayed but only diagnostic. Observation (unspecified for C02, recorded as drift): Dsc/Changes given a list or file whose leading comment is followed by a blank line lose the paragraph. Trusted: TLC, the concretizer (line class known by construction), the projection items()/value.split('\\n')/dump(). Five spec-level negative controls and corrupted control traces must fail.",
+    note="Small-scope for the exhaustive part; payload text is sampled. Whitespace-only lines, junk lines, stray PGP lines and the non-default strictness flag are modelled and replayed but only diagnostic. Observation (unspecified for C02, recorded as drift): Dsc/Changes given a list or file whose leading comment is followed by a blank line lose the paragraph. Trusted: TLC, the concretizer (line class known by construction), the projection items()/value.split('\\n')/dump(). Independence of calls (module Deb822ReaderCalls: memo / shared-object negative controls, LTS replayed; repeated parses with caller-side mutation, interleaved generators, kept-alive objects). Seven spec-level negative controls and corrupted control traces must fail.",
     design="5 (C02)")
 
 FORMS = ("str", "bytes", "lines_nl", "lines", "sio", "bio")
